@@ -1435,6 +1435,14 @@ func genRelayNeg(c *ctx) {
 	os.Unsetenv("TMUX") // checkTmux: noTmuxMode for NewTrzszRelay
 	sc := trzsz.VerifRelayStatusConsts()
 	c.emit(false, "status_consts", fmt.Sprintf("%d,%d,%d", sc[0], sc[1], sc[2]))
+	// what the client's json.Unmarshal makes of the "escape_chars":{} a relay hands it
+	for _, js := range []string{"{}", `[["\u00ee","\u00ee\u00ee"],["~","\u00ee1"]]`} {
+		res := "ok"
+		if _, err := trzsz.VerifParseEscapeTable([]byte(js)); err != nil {
+			res = "err"
+		}
+		c.emit(true, "client_decode_escape", res, map[bool]string{true: "o", false: "tee" + "ee" + "7e31"}[js == "{}"])
+	}
 	c.c14exportHandshakes()
 	c.c14pipeHandshakes()
 	c.c14sequences()
